@@ -336,8 +336,9 @@ def expected_spec(pool, ref, passed_refs):
     if "derive" in s:
         b = pool[s["of"]]
         out = expected_spec(pool, s["of"], passed_refs)
-        out["mid_ref"] = s["of"]
+        out["mid_ref"] = s["of"]          # Prior.new(): a copy that keeps the message object of the original
         if s["derive"] == "with_limits":
+            out["mid_ref"] = ref          # d755794: with_limits builds a prior (and message) of its own
             out["lo"] = max(unhex(s["lo"]), unhex(b["lo"]))
             out["hi"] = min(unhex(s["hi"]), unhex(b["hi"]))
         return out
@@ -774,21 +775,6 @@ def classes_for(c, step_index, clause, where=()):
             out.append("dict-zero-prior-instance")
         if clause in ("instance-pos", "structure-pos", "instance-strict") and under_zero and "zeroprior-tuple" in feats:
             out.append("dict-zero-prior-instance")
-    # database Value rows are REAL columns: an int constant comes back as a float (the attribute it sits in is known from the case)
-    int_attrs = [tuple(l) + (nm,) for l, nm, kind in c.get("opaques", []) if kind == "int"]
-    if form == "db" and clause in ("structure-pos", "constants-pos") and where in int_attrs:
-        out.append("db-int-as-float")
-    if clause == "item-number" and "db" in forms:      # lost by the database trip; a later dict trip recomputes it
-        out.append("db-collection-item-number")
-    # classes of repaired defects (status fixed: they suppress nothing; kept so that a regression is named)
-    if clause in ("partition", "partition-pos", "order-pos") and form == "db" and feats & {"new", "with_limits", "passed"}:
-        out.append("db-message-id")
-    if clause == "exception:AttributeError" and form == "db" and "assert-chain" in feats:
-        out.append("db-chained-assertion")
-    if clause == "exception:TypeError" and form == "dict" and "fam:loggaussian" in feats:
-        out.append("dict-loggaussian")
-    if clause in ("constants-pos", "structure-pos") and form == "dict" and "dict-falsy" in feats:
-        out.append("dict-falsy-constant")
     return out
 
 
@@ -1059,9 +1045,11 @@ def run(ctx):
     n = 170 if ctx.tier == "quick" else 1300
     cases = []
     corpus = os.path.join(common.VERIF, "corpus", "C08")
+    pinned = {}            # index of a corpus case -> its file name
     if os.path.isdir(corpus):
         for f in sorted(os.listdir(corpus)):
             if f.endswith(".json"):
+                pinned[len(cases)] = f
                 cases.append(json.load(open(os.path.join(corpus, f))))
     guard = 0
     while len(cases) < n and guard < 20 * n:
@@ -1103,10 +1091,22 @@ def run(ctx):
         for j, r in enumerate(o["results"]):
             results[ci + j * common.NCPU] = r
     coq_cases, coq_idx = [], []
+    fixed_sigs = {k["signature"]: k for k in common.load_known("C08") if k.get("status") == "fixed"}
+    REPAIRED = {"finding-db-message-id.json": "db-prior-id-read-through-message", "finding-db-chained-assertion.json": "db-chained-assertion",
+                "finding-dict-loggaussian.json": "dict-loggaussian-no-mean-sigma", "finding-dict-falsy-constant.json": "dict-branch-drops-falsy-values",
+                "finding-dict-array.json": "dict-array-not-registered", "finding-array-db-int-shape.json": "array-db-int-shape",
+                "finding-db-int-as-float.json": "db-int-as-float", "finding-db-collection-item-number.json": "db-collection-item-number"}
     for i, (c, r) in enumerate(zip(cases, results)):
-        if c.get("kind") in ("array", "modified"):
-            run_array_oracle(ctx, c, r)
-            continue
+        before = len(ctx.violations) + sum(h["count"] for h in ctx.known_hits.values())
+        try:
+            if c.get("kind") in ("array", "modified"):
+                run_array_oracle(ctx, c, r)
+                continue
+        finally:
+            if c.get("kind") in ("array", "modified") and pinned.get(i) in REPAIRED and REPAIRED[pinned[i]] in fixed_sigs and not ctx.replay:
+                after = len(ctx.violations) + sum(h["count"] for h in ctx.known_hits.values())
+                ctx.obligation("regression:" + REPAIRED[pinned[i]], "regression", after == before,
+                               "" if after == before else "the pinned case of a repaired finding fails again (%s)" % fixed_sigs[REPAIRED[pinned[i]]].get("commit"))
         prog = c["program"]
         feats = case_features(c)
         nontrivial = len(set(refs_in(prog["root"]))) >= 2 and bool(
@@ -1148,6 +1148,9 @@ def run(ctx):
                 oracle_failed = True
                 ctx.failure("oracle", "%s round trip (step %d) [%s]: %s" % (form, k + 1, clause, msg), sub,
                             classes=classes_for(c, k, clause, where), impl={"before": r["states"][k]["state"], "after": r["states"][k + 1]["state"]})
+        if pinned.get(i) in REPAIRED and REPAIRED[pinned[i]] in fixed_sigs and not ctx.replay:
+            ctx.obligation("regression:" + REPAIRED[pinned[i]], "regression", not oracle_failed,
+                           "" if not oracle_failed else "the pinned case of a repaired finding fails again (%s)" % fixed_sigs[REPAIRED[pinned[i]]].get("commit"))
         cc = coq_case(c, r, cfg)
         if cc is None:
             ctx.hist("correspondence", "not-printable")
@@ -1201,17 +1204,12 @@ def run_array_oracle(ctx, c, r):
         forms = [x["form"] for x in c["steps"][:k + 1]]
         if "exc" in st:
             ctx.oracle["failures"] += 1
-            # Array.__init__ / np.ndindex on a float shape that an earlier database trip left behind
-            classes = ["array-db-int-shape"] if ("db" in forms[:-1] and st["exc"] == "TypeError") else []
+            classes = []
             ctx.failure("oracle", "array model: %s round trip (step %d) raised %s: %s" % (form, k + 1, st["exc"], st.get("msg")), sub,
                         classes=classes, impl=st)
             break
         for clause, msg in compare_arrays(r["states"][k], r["states"][k + 1]):
             classes = []
-            # database Value rows are REAL: Array.shape / indices (ints) come back as floats; only the array-shaped clauses,
-            # only on (or after) a database trip of an Array
-            if clause in ("array-structure", "array-instance") and "db" in forms and only_int_float(r["states"][k]["state"], r["states"][k + 1]["state"]):
-                classes.append("array-db-int-shape")
             ctx.oracle["failures"] += 1
             ctx.failure("oracle", "array model: %s round trip (step %d) [%s]: %s" % (form, k + 1, clause, msg), sub, classes=classes,
                         impl={"before": r["states"][k], "after": r["states"][k + 1]})
